@@ -231,7 +231,7 @@ func (e *Env) convert(v Value, to types.Type) Value {
 		if ds == IntS {
 			t := e.toIntTerm(s)
 			if !fitsIn(s.Typ, to) {
-				t = e.R().wrap(t, to)
+				t = e.wrapFit(t, to)
 			}
 			return Scalar{t, to}
 		}
@@ -1087,6 +1087,14 @@ func (e *Env) shift(op token.Token, a, b Value, at ast.Node) Value {
 		unsupported("%s: shift of an Int-represented value by a non-constant amount", e.where)
 	}
 	k := int(cnt.V.Int64())
+	if k < 0 {
+		if e.contract {
+			k = 0 // dead branch of a specification (code gets a panic obligation below)
+		} else {
+			e.x.safety(e, "shift", at, FalseT)
+			k = 0
+		}
+	}
 	if op == token.SHL {
 		return e.arithResultShift(Mul(sa.T, IntB(pow2(k))), sa.Typ)
 	}
@@ -1651,15 +1659,39 @@ var _ = fmt.Sprintf
 
 // tdiv / tmod: Go's truncated division; when the dividend is known to be non-negative (syntactically
 // or by an assumption already on the path) it coincides with SMT's euclidean div/mod.
+// knownPositive: the divisor is a positive constant or has a positive lower bound on this path.
+func (e *Env) knownPositive(b *Term) bool {
+	if b.Op == "const" {
+		return b.V.Sign() > 0
+	}
+	if e.st != nil && b.S == IntS {
+		if iv := e.termBounds(b, e.varBounds(), map[*Term]*ival{}, 0); iv != nil && iv.lo.Sign() > 0 {
+			return true
+		}
+	}
+	return false
+}
+
 func (e *Env) tdiv(a, b *Term) *Term {
-	if b.Op == "const" && b.V.Sign() > 0 && e.knownNonNeg(a, 0) {
-		return EDiv(a, b)
+	if e.knownPositive(b) && e.knownNonNeg(a, 0) {
+		q := EDiv(a, b)
+		e.divFacts(q, a, b)
+		return q
 	}
 	return TDiv(a, b)
 }
 
+// divFacts: for a division by a non-constant positive term, the linear consequences 0 <= q <= a of
+// its definition (the solvers treat such a division as non-linear and do not derive them).
+func (e *Env) divFacts(q, a, b *Term) {
+	if b.Op == "const" || q.Op != "div" || e.st == nil {
+		return
+	}
+	e.st.assume(And(Le(IntC(0), q), Le(q, a)))
+}
+
 func (e *Env) tmod(a, b *Term) *Term {
-	if b.Op == "const" && b.V.Sign() > 0 && e.knownNonNeg(a, 0) {
+	if e.knownPositive(b) && e.knownNonNeg(a, 0) {
 		return EMod(a, b)
 	}
 	return TMod(a, b)
@@ -1702,6 +1734,11 @@ func (e *Env) knownNonNeg(t *Term, depth int) bool {
 	}
 	if e.nonneg != nil && e.nonneg[t] {
 		return true
+	}
+	if depth == 0 && e.st != nil && t.S == IntS {
+		if b := e.termBounds(t, e.varBounds(), map[*Term]*ival{}, 0); b != nil && b.lo.Sign() >= 0 {
+			return true
+		}
 	}
 	if e.st != nil {
 		for _, p := range e.st.pc {
